@@ -173,20 +173,20 @@ Qed.
 (* is_running is non-zero exactly when expire_time_get is; a slot that is not ACTIVE (never used, deleted,
    expired and queued, dispatched) answers 0 to all three queries; an ACTIVE slot answers with its heap
    object's expire_time, the time left on the clock (0 once it is overdue), and "running" *)
-Lemma queries_agree : forall st h,
-  (is_running st h = 1 <-> expire_time_get st h > 0) /\
-  (is_running st h = 0 <-> expire_time_get st h <= 0) /\
-  (forall i s, timer_from_handle st h = LOk i s -> s_state s <> LT_ENTRY_ACTIVE ->
-     expire_time_get st h = 0 /\ is_running st h = 0 /\ fst (time_remaining st h) = 0) /\
-  (forall i s tm, timer_from_handle st h = LOk i s -> s_state s = LT_ENTRY_ACTIVE -> s_th s = Some tm -> 0 < t_exp tm ->
-     expire_time_get st h = t_exp tm /\ is_running st h = 1 /\
-     fst (time_remaining st h) = Z.max 0 (t_exp tm - clk st)) /\
-  (forall e, timer_from_handle st h = LErr e ->
-     expire_time_get st h = 0 /\ is_running st h = 0 /\ fst (time_remaining st h) = 0).
+Lemma queries_agree : forall fx st h,
+  (is_running fx st h = 1 <-> expire_time_get fx st h > 0) /\
+  (is_running fx st h = 0 <-> expire_time_get fx st h <= 0) /\
+  (forall i s, timer_from_handle fx st h = LOk i s -> s_state s <> LT_ENTRY_ACTIVE ->
+     expire_time_get fx st h = 0 /\ is_running fx st h = 0 /\ fst (time_remaining fx st h) = 0) /\
+  (forall i s tm, timer_from_handle fx st h = LOk i s -> s_state s = LT_ENTRY_ACTIVE -> s_th s = Some tm -> 0 < t_exp tm ->
+     expire_time_get fx st h = t_exp tm /\ is_running fx st h = 1 /\
+     fst (time_remaining fx st h) = Z.max 0 (t_exp tm - clk st)) /\
+  (forall e, timer_from_handle fx st h = LErr e ->
+     expire_time_get fx st h = 0 /\ is_running fx st h = 0 /\ fst (time_remaining fx st h) = 0).
 Proof.
-  intros st h. unfold is_running.
-  split; [destruct (expire_time_get st h >? 0) eqn:E; [apply Z.gtb_lt in E|rewrite Z.gtb_ltb in E; apply Z.ltb_ge in E]; split; intros; try lia; discriminate|].
-  split; [destruct (expire_time_get st h >? 0) eqn:E; [apply Z.gtb_lt in E|rewrite Z.gtb_ltb in E; apply Z.ltb_ge in E]; split; intros; try lia; discriminate|].
+  intros fx st h. unfold is_running.
+  split; [destruct (expire_time_get fx st h >? 0) eqn:E; [apply Z.gtb_lt in E|rewrite Z.gtb_ltb in E; apply Z.ltb_ge in E]; split; intros; try lia; discriminate|].
+  split; [destruct (expire_time_get fx st h >? 0) eqn:E; [apply Z.gtb_lt in E|rewrite Z.gtb_ltb in E; apply Z.ltb_ge in E]; split; intros; try lia; discriminate|].
   unfold expire_time_get, time_remaining. split; [|split].
   - intros i s L N. rewrite L.
     replace (s_state s =? LT_ENTRY_ACTIVE) with false by (symmetry; apply Z.eqb_neq; assumption). cbn [negb fst].
